@@ -34,7 +34,13 @@ EXPLANATION = (
     "'unsatisfied' only on a path on which one of its fetched pieces was absent; (11) when the UEB is parsed the five results "
     "of _calculate_sizes are stored under their own names on every path and every table sized with the guessed segment "
     "count (ciphertext hash tree and its leaf count) is rebuilt with the authoritative one; in (6) also: under allow_short "
-    "the padding is reachable without an exact-length precondition and a short tail cannot reach the return unpadded.  "
+    "the padding is reachable without an exact-length precondition and a short tail cannot reach the return unpadded; "
+    "(12) what the cap commits to covers every block of all N shares whoever receives them (rule C05.8 adopted as C01.12.8): "
+    "every round of the share loop of Encoder._send_segment hashes its block into self.block_hashes, every share gets a root "
+    "hash, the UEB hash entries are stored unconditionally and none of it depends on self.landlords / self.servermap; (13) "
+    "what is stored is what was hashed: the (share, block) pair sent in that loop is the pair hashed and one (data, number) "
+    "pair of the codec result, under the segment number of the round, a round skips the send only for a share without a "
+    "bucket writer, and send_block hands (segment number, block) to the writer of that share on every path on which it has one.  "
     "Undecided: the arithmetic identities themselves (sum of block sizes == share size), zfec, AES, hash trees; that the "
     "spans a stage fetches are the spans _desire_* requested (a mismatch stalls every download); the value-level guards "
     "(2**32 / 2**64 layout-version limits, the segnum >= num_segments BADSEGNUM boundary - SegmentFetcher re-checks it -, "
@@ -2171,6 +2177,228 @@ def run_authoritative_tables(ctx, r):
                 path, w.brief()), w)
 
 
+# ----------------------------------------- the blocks that are sent are the blocks that are hashed
+def _no_writer_edge(fnorm, n, lab, share_nfs):
+    """The edge (n, lab) holds only when the share has no bucket writer: `<share> not in self.landlords`
+    or `self.landlords.get(<share>)` absent."""
+    f = fnorm.edge_fact(n, lab)
+    if not f:
+        return False
+    if f[0] == "not in" and f[2] == "self.landlords" and f[1] in share_nfs:
+        return True
+    gets = {"self.landlords.get(%s)" % x for x in share_nfs} | {"self.landlords.get(%s, None)" % x for x in share_nfs}
+    if f[0] == "false" and f[1] in gets:
+        return True
+    return f[0] in ("is", "==") and ({f[1], f[2]} - gets) == {"None"} and ({f[1], f[2]} & gets)
+
+
+def _block_hash_sites(idx, fn, enc, depth=1):
+    """[(CFG node of fn, share-index AST, block AST)]: self.block_hashes[<share>].append(block_hash(<block>)) done at that
+    node, directly or by a call of an Encoder method that does it (arguments substituted for its parameters)."""
+    s = Sym(idx, fn)
+    out = []
+    for n in fn.cfg().nodes:
+        for c in node_calls(n):
+            if not isinstance(c.func, ast.Attribute):
+                continue
+            if c.func.attr == "append" and len(c.args) == 1:
+                tgt = s.fnorm.resolve(n, c.func.value) if isinstance(c.func.value, ast.Name) else c.func.value
+                h = s.fnorm.resolve(n, c.args[0])
+                if isinstance(tgt, ast.Subscript) and attr_path(tgt.value) == "self.block_hashes" \
+                        and isinstance(h, ast.Call) and call_tail(h) == "block_hash" and len(h.args) == 1:
+                    out.append((n, tgt.slice, h.args[0]))
+            elif depth > 0 and attr_path(c.func.value) == "self":
+                m = enc.lookup(c.func.attr)
+                if m is None or m.qual == fn.qual:
+                    continue
+                sub = _block_hash_sites(idx, m, enc, depth - 1)
+                if not sub:
+                    continue
+                bound = bind_call_args(m, c)
+                ms = Sym(idx, m)
+                for (mn, sh, bl) in sub:
+                    out.append((n, subst_names(ms.expand(mn, sh), bound), subst_names(ms.expand(mn, bl), bound)))
+    return out
+
+
+def _codec_pairing(sym, node, block, share, pair_param):
+    """Is (block, share) at `node` one (share data, share number) pair of the codec result `pair_param` = (shares, shareids)?
+    -> True / False / None (form not recognised)."""
+    cfg = sym.cfg
+    b, s_ = sym.expand(node, block), sym.expand(node, share)
+
+    def half(e):
+        """(0|1, index nf) for <pair_param>[0|1][index]"""
+        if isinstance(e, ast.Subscript) and isinstance(e.value, ast.Subscript) and isinstance(e.value.value, ast.Name) \
+                and e.value.value.id == pair_param and isinstance(e.value.slice, ast.Constant) and e.value.slice.value in (0, 1) \
+                and not isinstance(e.slice, ast.Slice):
+            return (e.value.slice.value, nf(e.slice))
+        if isinstance(e, ast.Name):          # for <i>, <e> in enumerate(<pair_param>[0|1])
+            ds = sym.rd.get(node.id, {}).get(e.id)
+            L = cfg.nodes[next(iter(ds))] if ds and len(ds) == 1 and C.PARAM_DEF not in ds else None
+            if L is not None and L.kind == "iter" and isinstance(L.ast.iter, ast.Call) and call_name(L.ast.iter) == "enumerate" \
+                    and len(L.ast.iter.args) == 1 and not L.ast.iter.keywords and isinstance(L.ast.target, ast.Tuple) \
+                    and len(L.ast.target.elts) == 2 and all(isinstance(t, ast.Name) for t in L.ast.target.elts) \
+                    and L.ast.target.elts[1].id == e.id and L.ast.target.elts[0].id != e.id:
+                i = L.ast.target.elts[0].id
+                seq = nf(sym.expand(L, L.ast.iter.args[0]))
+                for h in (0, 1):
+                    if seq == "%s[%d]" % (pair_param, h) and sym.rd.get(node.id, {}).get(i) == ds:
+                        return (h, i)
+        return None
+    hb, hs = half(b), half(s_)
+    if hb is not None and hs is not None:
+        return hb[0] == 0 and hs[0] == 1 and hb[1] == hs[1]
+    if isinstance(b, ast.Name) and isinstance(s_, ast.Name):
+        db, ds = sym.rd.get(node.id, {}).get(b.id), sym.rd.get(node.id, {}).get(s_.id)
+        if db and db == ds and len(db) == 1 and C.PARAM_DEF not in db:
+            L = cfg.nodes[next(iter(db))]
+            if L.kind == "iter" and isinstance(L.ast.target, (ast.Tuple, ast.List)) and isinstance(L.ast.iter, ast.Call) \
+                    and call_name(L.ast.iter) == "zip" and len(L.ast.iter.args) == len(L.ast.target.elts) \
+                    and not L.ast.iter.keywords:
+                pos = {t.id: i for i, t in enumerate(L.ast.target.elts) if isinstance(t, ast.Name)}
+                if b.id in pos and s_.id in pos:
+                    src_b = nf(sym.expand(L, L.ast.iter.args[pos[b.id]]))
+                    src_s = nf(sym.expand(L, L.ast.iter.args[pos[s_.id]]))
+                    if {src_b, src_s} == {"%s[0]" % pair_param, "%s[1]" % pair_param}:
+                        return src_b == "%s[0]" % pair_param
+    return None
+
+
+def run_sent_is_hashed(ctx, r):
+    """Every block the codec produces is hashed for its share (C01.12).  The round trip also needs the other half:
+    the block stored on the server of share S for segment n is that same block - so in the share loop of
+    Encoder._send_segment the (share, block) pair that is hashed is the pair that is sent, under the segment number of
+    the round; a round skips the send only for a share without a bucket writer; and send_block hands exactly
+    (segment number, block) to the writer of that share."""
+    idx = ctx.idx
+    enc = idx.cls(ENC)
+    ss = idx.func(ENC + "._send_segment")
+    ssp = first_positional_params(ss)
+    if len(ssp) != 2:
+        raise AnchorVanished("Encoder._send_segment(shares_and_shareids, segnum)")
+    sb = idx.func(ENC + ".send_block")
+    sbp = first_positional_params(sb)
+    if len(sbp) < 3:
+        raise AnchorVanished("Encoder.send_block(shareid, segment_num, block, ..)")
+    sym = Sym(idx, ss)
+    cfg = ss.cfg()
+    fnorm = sym.fnorm
+    hashed = [h for h in _block_hash_sites(idx, ss, enc) if h[0].kind in ("stmt", "test")]
+    if not hashed:
+        raise AnchorVanished("Encoder._send_segment: no self.block_hashes[..].append(block_hash(..))")
+    sends = []
+    for n in cfg.nodes:
+        for c in node_calls(n):
+            if call_name(c) == "self." + sb.name:
+                b = bind_call_args(sb, c)
+                if not all(p in b for p in sbp[:3]):
+                    raise AnalysisError("%s: cannot bind %s" % (short(ss), src(ss, c)))
+                sends.append((n, c, b[sbp[0]], b[sbp[1]], b[sbp[2]]))
+    if not sends:
+        puts = [m for m in enc.methods.values() if calls_in_func(m, "put_block", into_lambda=True)]
+        if not puts:
+            raise AnchorVanished("Encoder: no put_block call")
+        r.site(ss, None, "share loop")
+        r.violation(ss, ss.loc(), "Encoder._send_segment hashes the blocks but never calls %s: no block reaches a bucket "
+                    "writer (put_block is only reached from %s)" % (sb.name, ", ".join(short(m) for m in puts)))
+        return
+
+    def key(n, e):
+        return nf(sym.expand(n, e))
+    hkeys = {(key(n, sh), key(n, bl)) for (n, sh, bl) in hashed}
+    for (n, c, sh, seg, bl) in sends:
+        r.site(ss, c, "sent (share %s, block %s) is what is hashed" % (key(n, sh), key(n, bl)))
+        got = (key(n, sh), key(n, bl))
+        r.require(got in hkeys, ss, ss.loc(c), "the share loop of Encoder._send_segment sends block %s as share %s but hashes %s: "
+                  "the block hash tree of the share (and through it the UEB hash in the cap) does not describe the bytes "
+                  "stored on the server, and the downloader rejects every block" % (
+                      got[1], got[0], " / ".join("block %s for share %s" % (b_, s_) for (s_, b_) in sorted(hkeys))))
+        r.require(key(n, seg) == ssp[1], ss, ss.loc(c), "the blocks of segment %s are sent as segment %s: put_block stores them "
+                  "at offsets['data'] + segnum * block_size, so the share holds them at the wrong place" % (ssp[1], key(n, seg)))
+        pairing = _codec_pairing(sym, n, bl, sh, ssp[0])
+        if pairing is None:
+            raise AnalysisError("%s: cannot decide whether (%s, %s) is a (share data, share number) pair of %s" % (
+                short(ss), src(ss, bl), src(ss, sh), ssp[0]))
+        r.require(pairing, ss, ss.loc(c), "block %s is sent as share %s: these are not the data and the number of the same "
+                  "share in the codec result %s" % (key(n, bl), key(n, sh), ssp[0]))
+    # a round of the share loop sends, unless the share has no bucket writer
+    send_nodes = {n.id for (n, _c, _s, _g, _b) in sends}
+    loops = []
+    for L in cfg.nodes:
+        if L.kind == "iter":
+            body = {id(x) for st_ in L.ast.body for x in ast.walk(st_)}
+            if any(n.ast is not None and id(n.ast) in body for (n, _c, _s, _g, _b) in sends):
+                loops.append((L, body))
+    if not loops:
+        r.violation(ss, ss.loc(sends[0][1]), "Encoder._send_segment does not send the blocks from a loop over the shares")
+    for (L, body) in loops:
+        r.site(ss, L.ast, "every round sends the block unless the share has no bucket writer")
+        share_nfs = set()
+        for (n, _c, sh, _g, _b) in sends:
+            share_nfs.add(nf(sh))
+            share_nfs.add(fnorm.norm(n, sh))
+            share_nfs.add(key(n, sh))
+
+        def tr(n, lab, nxt, st, _L=L):
+            if lab == "exc":
+                return None
+            if n.kind == "test" and isinstance(lab, tuple) and isinstance(n.ast, ast.Constant) \
+                    and bool(n.ast.value) != (lab[0] == "T"):
+                return None
+            if st == 0:
+                return 1 if (n is _L and lab == "iter") else None
+            if n is _L or n.id in send_nodes or _no_writer_edge(fnorm, n, lab, share_nfs):
+                return None
+            return 1
+        visited, parent = explore(cfg, 0, tr, start=L)
+        r.count(len(visited))
+        for (nid, st) in sorted(visited):
+            m = cfg.nodes[nid]
+            if st == 1 and (m is L or m.kind == "exit" or (m.ast is not None and id(m.ast) not in body)):
+                w = witness(cfg, parent, (nid, st))
+                r.violation(ss, ss.loc(L.ast), "a round of the share loop of Encoder._send_segment can finish without %s although "
+                            "the share may have a bucket writer (path: %s): the share on the server lacks this block - "
+                            "later blocks are still written at their own offsets - and fails its block hash on download" % (
+                                sb.name, w.brief()), w)
+                break
+        dep = depends_on(ss, L.ast.iter)
+        r.require(ssp[0] in dep or "self.num_shares" in dep, ss, ss.loc(L.ast), "the share loop of Encoder._send_segment (%s) "
+                  "does not run over the shares it was given (%s)" % (src(ss, L.ast.iter), ssp[0]))
+
+    # send_block: (segment number, block) go to the writer of that share on every path on which it has one
+    bs = Sym(idx, sb)
+    bcfg = sb.cfg()
+    bnorm = bs.fnorm
+    pb = idx.cls(WBP).lookup("put_block")
+    if pb is None:
+        raise AnchorVanished("WriteBucketProxy.put_block")
+    pbp = first_positional_params(pb)
+    puts = [(n, c) for n in bcfg.nodes for c in node_calls(n) if call_tail(c) == "put_block"]
+    r.site(sb, puts[0][1] if puts else None, "put_block(%s, %s) on self.landlords[%s]" % (sbp[1], sbp[2], sbp[0]))
+    if not puts:
+        r.violation(sb, sb.loc(), "Encoder.send_block never calls put_block: no block reaches a bucket writer")
+        return
+    good = set()
+    for (n, c) in puts:
+        recv = nf(bs.expand(n, c.func.value)) if isinstance(c.func, ast.Attribute) else "?"
+        ok_r = recv in ("self.landlords[%s]" % sbp[0], "self.landlords.get(%s)" % sbp[0])
+        r.require(ok_r, sb, sb.loc(c), "block of share %s is put to %s, not to the bucket writer of that share" % (sbp[0], recv))
+        b = {k_: nf(bs.expand(n, v_)) for k_, v_ in bind_call_args(pb, c).items()}
+        ok_a = len(pbp) == 2 and b.get(pbp[0]) == sbp[1] and b.get(pbp[1]) == sbp[2]
+        r.require(ok_a, sb, sb.loc(c), "send_block(%s) calls %s: the writer is not given (segment number, block) as received" % (
+            ", ".join(sbp[:3]), src(sb, c)))
+        if ok_r and ok_a:
+            good.add(n.id)
+    if good:
+        for (t, w) in find_path_avoiding(bcfg, lambda q: q.kind == "exit", gate_node=lambda q: q.id in good,
+                                         gate_edge=lambda n_, lab: _no_writer_edge(bnorm, n_, lab, {sbp[0]}),
+                                         skip_exc_edges=True):
+            r.violation(sb, sb.loc(), "Encoder.send_block can return without put_block although the share may have a bucket "
+                        "writer (path: %s): the share on the server lacks this block and fails its block hash on download"
+                        % w.brief(), w)
+
+
 # ====================================================================== driver
 def run(ctx: Context):
     idx = ctx.idx
@@ -2230,5 +2458,10 @@ def run(ctx: Context):
                   expected=7) as r:
         run_authoritative_tables(ctx, r)
 
-    # the hashes the cap commits to are computed for all N shares, whoever receives them (shared with C05)
+    # C01.12.8: the hashes the cap commits to are computed for all N shares, whoever receives them (rule shared with C05)
     ctx.include("C05", ["C05.8"], "C01.12")
+
+    with ctx.rule("C01.13", "R2/R6", "Encoder._send_segment sends, for every share that has a bucket writer, the very (share, "
+                  "block) pair it hashes, under the segment number of the round; send_block hands (segment number, block) to "
+                  "the writer of that share on every path on which the share has one", expected=3) as r:
+        run_sent_is_hashed(ctx, r)
